@@ -92,8 +92,8 @@ def _has_variables(dom):
 LOSSLESS = {'keepEmptyRules': True, 'resolveVariables': False}
 
 
-def roundtrip(dom, href=None, configs=('default', 'lossless')):
-    """-> [(clause, detail)] for one sheet DOM under the default preferences and under the lossless preferences"""
+def roundtrip(dom, href=None, configs=('default', 'lossless'), reparsed=None):
+    """-> [(clause, detail)] for one sheet DOM under the default preferences and under the lossless preferences; the reparsed DOMs are appended to `reparsed` if given"""
     cssutils = _quiet()
     fails = []
     try:
@@ -114,6 +114,8 @@ def roundtrip(dom, href=None, configs=('default', 'lossless')):
                 continue
             finally:
                 cssutils.log.raiseExceptions = True
+            if reparsed is not None:
+                reparsed.append(d2)
             p1 = norm_zero(gen.project(dom, lenient=True))
             p2 = norm_zero(gen.project(d2, lenient=True))
             if cfg == 'default':
@@ -153,7 +155,16 @@ import re
 _PLAIN_IDENT = re.compile(r'^-?[_a-zA-Z\u0080-\U0010ffff][-_a-zA-Z0-9\u0080-\U0010ffff]*\Z')
 IDENT_CONTEXTS = ('ident value', 'class name', 'id name', 'type name', 'attribute name', 'attribute value ident', 'property name', 'namespace prefix', 'page name',
                   'unknown at-keyword', 'function name', 'dimension unit', 'pseudo-class name')
-URL_CONTEXTS = ('url value quoted', 'url value bare', 'import href url')
+URL_CONTEXTS = ('url value quoted', 'url value bare', 'import href url', 'import href url bare')
+BARE_URL_CONTEXTS = ('url value bare', 'import href url bare')
+STRING_CONTEXTS = ('string value "', "string value '", 'string in function', 'url value quoted', 'import href string', 'import href url', 'import name', 'namespace uri',
+                   'attribute value string', 'unknown rule string')
+# identifier contexts in which cssutils decodes simple escapes (backslash + character) too - elsewhere it keeps them as written and only hex escapes are decoded
+SIMPLE_DECODED_CONTEXTS = ('unknown at-keyword', 'function name', 'dimension unit', 'pseudo-class name')
+_ESC = r'(?<!\\)(?:\\\\)*\\'         # a backslash that starts an escape (not itself escaped)
+_HEX_ESCAPE = re.compile(_ESC + '[0-9a-fA-F]')
+_HEX_BACKSLASH = re.compile(_ESC + '(?:00005[cC]|0{0,3}5[cC](?![0-9a-fA-F]))')   # U+005C as a hex escape (six digits are complete, fewer must not be followed by another digit)
+_SIMPLE_QUOTE = re.compile(_ESC + '"')
 _URL_CONTROL = re.compile('[\x00-\x08\x0b\x0e-\x1f\x7f]')
 COMMENT_CONTEXTS = ('comment rule level', 'comment declaration level', 'comment in value', 'comment in selector', 'comment in media')
 
@@ -185,7 +196,10 @@ def _empty_block_rule(x):
 
 def _k_ident(info, fails):
     if info['domain'] == 'content':
-        return info['context'] in IDENT_CONTEXTS and not _PLAIN_IDENT.match(info['content'])
+        # the escape has to be one that the tokenizer decodes: a hex escape anywhere, a simple escape in the four contexts where those are decoded as well; an
+        # identifier whose source holds simple escapes only is kept as written and is NOT in the class
+        return (info['context'] in IDENT_CONTEXTS and not _PLAIN_IDENT.match(info['content'])
+                and (info['context'] in SIMPLE_DECODED_CONTEXTS or bool(_HEX_ESCAPE.search(info['source']))))
     if info['domain'] == 'edits':
         return any('.\\\\31 a' in o or '.\\31 a' in o for o in info['ops'])
     if info['domain'] == 'real':
@@ -253,8 +267,37 @@ def _k_media_ns(info, fails):
             and all(cl == CL_NODE_EQUIV or cl == CL_NODE_ACCEPT for cl, _ in fails))
 
 
+def _k_hex_backslash(info, fails):
+    return (info['domain'] == 'content' and info['context'] in STRING_CONTEXTS + BARE_URL_CONTEXTS and bool(_HEX_BACKSLASH.search(info['source']))
+            and bool(re.search(r'\\[0-9a-fA-F\n\r\f"\'\\]', info['content'])))
+
+
+def _dup_media_list(detail):
+    """does the serialisation quoted in the failure detail hold an @media / @import list with two equal queries (compared case-insensitively)"""
+    for m in re.finditer(r'@media ([^{;]*)\{|@import [^;]*?(?:"|\))([^;"]*);', detail):
+        qs = [q.strip().lower() for q in re.sub(r'"[^"]*"\s*$', '', m.group(1) or m.group(2) or '').split(',')]   # (without the name of a named @media rule)
+        if len(qs) != len(set(qs)):
+            return True
+    return False
+
+
+def _k_mediatype_duplicate(info, fails):
+    return (info['domain'] == 'edits' and any('.mediaType=' in o for o in info['ops']) and 'mediaquery(typeless).mediaType=tv' not in info['ops']
+            and all(bool(re.search(r'media\[\d+\]: \d+ item', d)) or _dup_media_list(d) for _, d in fails))
+
+
 KNOWN = [
     ('C03-ident-not-reescaped', _k_ident),
+    ('C03-hex-escaped-backslash', _k_hex_backslash),
+    ('C03-bare-url-escaped-quote', lambda info, fails: info['domain'] == 'content' and info['context'] in BARE_URL_CONTEXTS and '"' in info['content']
+     and bool(_SIMPLE_QUOTE.search(info['source']))),
+    ('C03-bare-url-trailing-escaped-backslash', lambda info, fails: info['domain'] == 'content' and info['context'] in BARE_URL_CONTEXTS and info['content'].strip().endswith('\\')
+     and '\\\\' in info['source']),
+    ('C03-ident-trailing-escaped-space', lambda info, fails: info['domain'] == 'content' and info['context'] in ('namespace prefix', 'page name') and info['content'].endswith(' ')
+     and bool(re.search(_ESC + ' ', info['source']))),
+    ('C03-mediatype-set-duplicate-query', _k_mediatype_duplicate),
+    ('C03-mediatype-set-typeless-query', lambda info, fails: info['domain'] == 'edits' and 'mediaquery(typeless).mediaType=tv' in info['ops']
+     and all(bool(re.search(r'\btv min-width', d, re.I)) for _, d in fails)),
     ('C03-url-control-char-unquoted', lambda info, fails: info['domain'] == 'content' and info['context'] in URL_CONTEXTS and bool(_URL_CONTROL.search(info['content']))),
     ('C03-comment-linebreak-reindented', lambda info, fails: info['domain'] == 'content' and info['context'] in ('comment declaration level', 'comment in value')
      and all('*/' in d for _, d in fails)
@@ -514,6 +557,34 @@ BASES = {
 }
 
 
+# a query for every shape of the media query grammar: only/not + type + features, type alone, type + feature, features alone
+BASES['media-queries'] = ('@import "a.css" only screen and (color); @media only screen and (min-width: 1px), not print, tv and (color) { a { left: 0 } } '
+                          '@media not all and (monochrome) { b { top: 0 } } @media (min-width: 1px) and (color) { c { top: 0 } }')
+
+BASE_SPELLINGS = ('as-is', 'upper', 'capitalised')
+_RESPELL = re.compile(r"""("(?:[^"\\]|\\.)*"|'(?:[^'\\]|\\.)*')|(/\*.*?\*/)|(url\()([^)]*)(\))|(@charset\b)|(@namespace\s+)([-\w]+)?|([-\w]+)(?=\|)|([a-zA-Z]+)""", re.S | re.I)
+
+
+def respell(text, how):
+    """the same sheet with every ASCII letter outside strings, url( ) contents, comments, '@charset' and namespace prefixes in upper case ('upper') or every
+    word capitalised ('capitalised'): keywords, property names, units, media types, element names ... are all spelled differently; it is another well-formed source"""
+    if how == 'as-is':
+        return text
+    up = (lambda w: w.upper()) if how == 'upper' else (lambda w: w[:1].upper() + w[1:].lower())
+    asc = lambda w: ''.join(up(x) if x.isascii() else x for x in re.split(r'([^\x00-\x7f]+)', w))  # noqa: E731
+
+    def sub(m):
+        string, comment, u1, u2, u3, charset, ns, nsprefix, prefix, word = m.groups()
+        if string or comment or charset or prefix:
+            return m.group(0)
+        if u1:
+            return asc(u1) + u2 + u3
+        if ns:
+            return asc(ns) + (nsprefix or '')
+        return asc(word)
+    return _RESPELL.sub(sub, text)
+
+
 def _first(sheet, typ):
     for r in sheet.cssRules:
         if r.type == typ:
@@ -583,6 +654,33 @@ def _ops():
     ops.append(('comment.cssText=', lambda s: setattr(_first(s, C), 'cssText', '/*new * / text*/')))
     F = R.FONT_FACE_RULE
     ops.append(('fontface.style.setProperty', lambda s: _first(s, F).style.setProperty('unicode-range', 'U+0-7F, U+4??')))
+    # every writable attribute of a media query / media list item, on the first and the last query of the first @media rule and on the @import rule
+    for which, idx in (('first', 0), ('last', -1)):
+        ops.append(('mediaquery(%s).mediaType=print' % which, lambda s, idx=idx: setattr(_first(s, M).media[idx], 'mediaType', 'print')))
+        ops.append(('mediaquery(%s).mediaText=' % which, lambda s, idx=idx: setattr(_first(s, M).media[idx], 'mediaText', 'not tv and (max-width: 2px)')))
+    ops.append(('mediaquery(typeless).mediaType=tv', lambda s: setattr([q for r in s.cssRules if r.type == M for q in r.media if q.mediaText.startswith('(')][0], 'mediaType', 'tv')))
+    ops.append(('mediaquery(first).mediaType=TV', lambda s: setattr(_first(s, M).media[0], 'mediaType', 'TV')))
+    ops.append(('import.mediaquery.mediaType=', lambda s: setattr(_first(s, I).media[0], 'mediaType', 'handheld')))
+    ops.append(('media.appendMedium(MediaQuery)', lambda s: _first(s, M).media.appendMedium(cssutils.stylesheets.MediaQuery('only tv and (color)'))))
+    ops.append(('media.deleteMedium(print)', lambda s: _first(s, M).media.deleteMedium('print')))
+    ops.append(('mediarule.media=', lambda s: setattr(_first(s, M), 'media', 'not screen and (color), tv')))
+    ops.append(('mediarule.name=', lambda s: setattr(_first(s, M), 'name', 'mn')))
+    # the writable attributes of the other node classes that the operations above do not reach
+    ops.append(('charset.encoding=', lambda s: setattr(_first(s, R.CHARSET_RULE), 'encoding', 'iso-8859-1')))
+    ops.append(('namespace.namespaceURI=', lambda s: setattr(_first(s, N), 'namespaceURI', 'http://other')))
+    ops.append(('stylerule.style=', lambda s: setattr(_first(s, S), 'style', 'bottom: 2px !important; /*s*/')))
+    ops.append(('stylerule.cssText=', lambda s: setattr(_first(s, S), 'cssText', 'e > f { right: 0 }')))
+    ops.append(('selectorList.appendSelector', lambda s: _first(s, S).selectorList.appendSelector('g + h')))
+    ops.append(('selector.selectorText=', lambda s: setattr(_first(s, S).selectorList[0], 'selectorText', 'i ~ j')))
+    ops.append(('property.cssText=', lambda s: setattr(_first(s, S).style.getProperties(all=True)[0], 'cssText', 'right: 1px !important')))
+    ops.append(('propertyValue.cssText=', lambda s: setattr(_first(s, S).style.getProperties(all=True)[0].propertyValue, 'cssText', 'url(u) "s", 2em')))
+    ops.append(('unknown.cssText=', lambda s: setattr(_first(s, R.UNKNOWN_RULE), 'cssText', '@other "x" { y }')))
+    ops.append(('marginrule.margin=', lambda s: setattr(_first(s, P).cssRules[0], 'margin', '@bottom-right')))
+    ops.append(('marginrule.style=', lambda s: setattr(_first(s, P).cssRules[0], 'style', 'content: "m"')))
+    ops.append(('page.style=', lambda s: setattr(_first(s, P), 'style', 'margin: 2cm')))
+    ops.append(('fontface.style=', lambda s: setattr(_first(s, F), 'style', 'font-family: g; src: url(h)')))
+    ops.append(('mediarule.cssText=', lambda s: setattr(_first(s, M), 'cssText', '@media tv and (color) { k { top: 0 } }')))
+    ops.append(('import.cssText=', lambda s: setattr(_first(s, I), 'cssText', '@import url(z.css) not print;')))
     return ops
 
 
@@ -591,6 +689,10 @@ def _pair_pool(ops, tier):
     if tier == 'thorough':
         return list(range(len(ops)))
     skip = ("insertRule(", "encoding=utf-8", "encoding=koi8-r", "style.setProperty('COLOR'", "style.setProperty('top'", "style.setProperty('font-family'", "style.selectorText='*'", "style.selectorText='a /*c*/ b'")
+    # of the attribute setters added later only two take part in the pairs of the quick tier (all of them are applied alone, on every base in every spelling)
+    skip += ('mediaquery(last)', 'mediaquery(typeless)', 'mediaquery(first).mediaText=', 'mediaquery(first).mediaType=TV', 'import.mediaquery.', 'media.appendMedium(MediaQuery)', 'media.deleteMedium(print)', 'mediarule.name=',
+             'charset.encoding=', 'namespace.namespaceURI=', 'stylerule.', 'selectorList.', 'selector.selectorText=', 'property.cssText=', 'propertyValue.', 'unknown.cssText=', 'marginrule.',
+             'page.style=', 'fontface.style=', 'mediarule.cssText=', 'import.cssText=')
     keep_insert = ("insertRule('x { left: 0 }', 0)", "insertRule('@import \"i.css\" tv;', 0)", "insertRule('@media tv { y { top: 0 } }', end)", "insertRule('/*ins*/', end)",
                    "insertRule('@namespace q \"http://q\";', 0)", "insertRule('q|z { color: blue }', end)", "insertRule('@page :left { margin: 0 }', end)")
     return [i for i, (n, _) in enumerate(ops) if n in keep_insert or not n.startswith(skip)]
@@ -605,15 +707,17 @@ def _sequences(ops, depth, tier):
 
 
 def _edit_worker(args):
-    tier, base, lo, hi, depth = args
+    tier, base, lo, hi, depth, spelling = args
     cssutils = _quiet()
     ops = _ops()
     n_ops = len(ops)
     seqs = _sequences(ops, depth, tier)
     res = {'n': 0, 'fails': [], 'kinds': set(), 'accepted': 0, 'rejected': 0}
+    source = respell(BASES[base], spelling)
+    extra = {} if spelling == 'as-is' else {'base_spelling': spelling, 'source': source}
     for seq in seqs[lo:hi]:
         cssutils.log.raiseExceptions = True
-        dom = cssutils.parseString(BASES[base])
+        dom = cssutils.parseString(source)
         cssutils.log.raiseExceptions = True
         accepted = []
         for i in seq:
@@ -624,36 +728,54 @@ def _edit_worker(args):
                 res['rejected'] += 1
             except Exception as e:
                 res['fails'].append({'clause': 'bounded: an edit either succeeds or raises a DOM exception', 'detail': '%s: %s' % (type(e).__name__, str(e)[:200]),
-                                     'info': {'domain': 'edits', 'base': base, 'ops': [ops[k][0] for k in seq]}})
+                                     'info': {'domain': 'edits', 'base': base, 'ops': [ops[k][0] for k in seq], **extra}})
         if not accepted:
             continue
         res['accepted'] += len(accepted)
         res['n'] += 1
-        res['kinds'].add((base,) + tuple(a.split('(')[0].split('=')[0] for a in accepted))
+        res['kinds'].add((base, spelling) + tuple(a.split('=')[0] if a.startswith(('mediaquery(', 'import.mediaquery')) else a.split('(')[0].split('=')[0] for a in accepted))
         for cl, detail in roundtrip(dom):
-            res['fails'].append({'clause': cl, 'detail': detail, 'info': {'domain': 'edits', 'base': base, 'ops': accepted}})
+            res['fails'].append({'clause': cl, 'detail': detail, 'info': {'domain': 'edits', 'base': base, 'ops': accepted, **extra}})
     res['kinds'] = sorted(res['kinds'])
     return res
+
+
+def _edit_plan(tier):
+    """[(base, spelling, depth)]: which base sheet, in which spelling, with operation sequences up to which length"""
+    plan = []
+    if tier == 'thorough':
+        for base in BASES:
+            plan.append((base, 'as-is', 2))
+            plan.append((base, 'upper', 2 if base in ('at-rules', 'media-queries') else 1))
+            plan.append((base, 'capitalised', 1))
+    else:
+        for base in BASES:
+            plan.append((base, 'as-is', 2 if base in ('two-rules', 'namespaces', 'at-rules') else 1))
+            plan.append((base, 'upper', 1))
+    return [(b, sp, d) for b, sp, d in plan if not (sp != 'as-is' and respell(BASES[b], sp) == BASES[b])]
 
 
 def edited_doms(ctx):
     t0 = time.time()
     n_ops = len(_ops())
     tasks = []
-    deep = list(BASES) if ctx.tier == 'thorough' else ['two-rules', 'namespaces', 'at-rules']
-    for base in BASES:
-        depth = 2 if base in deep else 1
+    plan = _edit_plan(ctx.tier)
+    for base, spelling, depth in plan:
         total = len(_sequences(_ops(), depth, ctx.tier))
         step = 250
         for lo in range(0, total, step):
-            tasks.append((ctx.tier, base, lo, min(total, lo + step), depth))
+            tasks.append((ctx.tier, base, lo, min(total, lo + step), depth, spelling))
     results = _pool_run(ctx, _edit_worker, tasks)
     acc = sum(r['accepted'] for r in results)
     rej = sum(r['rejected'] for r in results)
+    deep = sorted({'%s/%s' % (b, sp) for b, sp, d in plan if d == 2})
     _report(ctx, results, 'edited DOMs', 'every sequence of <= 2 operations from a pool of %d edits (insert/delete/add rules, selectorText, setProperty/removeProperty, style.cssText, '
-            'property value/priority/name, media list edits, import href/media/name, namespace prefix, page selector/margin rules, comment text, encoding, namespaces map) on %d base '
-            'sheets (pairs on %s); after the accepted edits the DOM is serialised, reparsed and compared; distinct = (base, accepted operation kinds)' % (n_ops, len(BASES), deep),
-            'sequences of <= 2 edits; %d operations accepted, %d rejected with a DOM exception' % (acc, rej), [{'base': BASES['two-rules']}], t0, exhaustive=True)
+            'property value/priority/name/cssText, media list edits, MediaQuery.mediaType/mediaText on the first and last query, import href/media/name, namespace prefix/URI, page selector/margin rules, '
+            'comment text, encoding, namespaces map, and the remaining writable attributes: rule.cssText, rule.style, rule.media, media rule name, charset encoding, margin name, selector list / selector / '
+            'property value text) on %d base sheets, each as written and respelled %s (ASCII letters outside strings, url( ), comments and namespace prefixes in upper case / capitalised): '
+            'plan (base, spelling, max sequence length) = %s; pairs on %s; after the accepted edits the DOM is serialised, reparsed and compared; '
+            'distinct = (base, spelling, accepted operation kinds)' % (n_ops, len(BASES), sorted({sp for _, sp, _ in plan} - {'as-is'}), plan, deep),
+            'sequences of <= 2 edits on %d (base, spelling) pairs; %d operations accepted, %d rejected with a DOM exception' % (len(plan), acc, rej), [{'base': BASES['two-rules']}], t0, exhaustive=True)
 
 
 # -------------------------------------------------------------------------------------------------------------- domain 4: node texts
@@ -794,9 +916,23 @@ def node_texts(ctx):
 ALPHABET = ['a', 'f', '1', '-', '"', "'", '\\', '(', ')', ' ', '\n', '\r', '\f', '\t', 'é', ';', ',', '/', '*', '{', '}', ':', '\xa0', '\U0001F600', '\x7f', '\x01', '@', '#', '.', '!']
 
 
-def css_ident(name):
+WRITERS = ('base', 'alt', 'hex6')   # see WRITER_FORMS
+_HEXDIGITS = '0123456789abcdefABCDEF'
+
+
+def _esc(ch, how):
+    """one character written as a CSS escape (CSS 2.1 4.1.3): 'hex' = \\HH + blank, 'hex6' = six hex digits without terminator, 'simple' = backslash + the character
+    itself where the grammar has that form (not for hex digits and line breaks, which fall back to 'hex')"""
+    if how == 'simple' and ch not in _HEXDIGITS and ch not in '\n\r\f':
+        return '\\' + ch
+    if how == 'hex6':
+        return '\\%06x' % ord(ch)
+    return '\\%x ' % ord(ch)
+
+
+def css_ident(name, how='hex'):
     """independent CSS identifier writer (CSS 2.1 4.1.3 ident: -?{nmstart}{nmchar}*): one optional leading '-', then a name-start character, then name
-    characters, verbatim; everything else as a hex escape"""
+    characters, verbatim; everything else as an escape of the form `how`"""
     out = []
     start = 0
     if len(name) > 1 and name[0] == '-':
@@ -810,8 +946,34 @@ def css_ident(name):
         if (i == start and nmstart) or (i > start and nmchar):
             out.append(ch)
         else:
-            out.append('\\%x ' % o)
+            out.append(_esc(ch, how))
     return ''.join(out)
+
+
+def css_str(content, q='"', how='simple'):
+    """independent CSS string writer: 'simple' is gen.css_string (quote and backslash as \\c, line breaks as hex escapes); 'hex' / 'hex6' write the quote, the
+    backslash and line breaks as hex escapes of that form"""
+    if how == 'simple':
+        return gen.css_string(content, q)
+    out = []
+    for i, ch in enumerate(content):
+        if ch == q or ch in '\\\n\r\f':
+            out.append(_esc(ch, how))
+            if how == 'hex6' and content[i + 1:i + 2] in (' ', '\t'):
+                out.append(' ')   # a blank written raw behind a six-digit escape would be taken for its (optional) terminator
+        else:
+            out.append(ch)
+    return q + ''.join(out) + q
+
+
+def css_url(content, how='hex'):
+    """independent writer of an unquoted url( ) body (CSS 2.1 4.3.4): white space, quotes, parentheses, the backslash and control characters as escapes of the form `how`"""
+    return ''.join(_esc(ch, how) if ch in ' \t\n\r\f\'"()\\' or ord(ch) < 0x20 or ord(ch) == 0x7f else ch for ch in content)
+
+
+def has_hex_escape(src):
+    """does the source text hold a hex escape (an escaped backslash does not start one)"""
+    return bool(re.search(r'(?<!\\)(?:\\\\)*\\[0-9a-fA-F]', src))
 
 
 def _R(d):
@@ -819,11 +981,17 @@ def _R(d):
     return [r for r in d.cssRules if r.type != r.CHARSET_RULE]
 
 
-def _content_cases(content, enc=None):
+# a writer = (identifier form, string form, url( ) form): 'base' is what the domain always had (identifiers with \\HH + blank, strings with \\" and \\\\), 'alt' the
+# other escape form in each of them, 'hex6' six-digit escapes without terminator everywhere
+WRITER_FORMS = {'base': ('hex', 'simple', 'hex'), 'alt': ('simple', 'hex', 'simple'), 'hex6': ('hex6', 'hex6', 'hex6')}
+
+
+def _content_cases(content, enc=None, writer='base'):
     """(context, source text, getter(dom) -> held content or None) for one content string; enc: the sheet declares @charset enc, so that
-    the serializer has to write every character the encoding cannot represent as a hex escape"""
-    S = gen.css_string(content)
-    S1 = gen.css_string(content, "'")
+    the serializer has to write every character the encoding cannot represent as a hex escape; writer: the escape forms the independent writers use (WRITER_FORMS)"""
+    iform, sform, uform = WRITER_FORMS[writer]
+    S = css_str(content, '"', sform)
+    S1 = css_str(content, "'", sform)
     cases = []
     first_decl = lambda d: _R(d)[0].style.getProperties(all=True)[0].propertyValue[0]  # noqa: E731
     cases.append(('string value "', 'a { x: %s }' % S, lambda d: first_decl(d).value))
@@ -836,10 +1004,12 @@ def _content_cases(content, enc=None):
     cases.append(('namespace uri', '@namespace p %s;' % S, lambda d: _R(d)[0].namespaceURI))
     cases.append(('attribute value string', '[x=%s] { y: z }' % S, lambda d: [i.value for i in _R(d)[0].selectorList[0].seq if i.type == 'STRING'][0]))
     cases.append(('unknown rule string', '@foo %s;' % S, lambda d: [i.value for i in _R(d)[0].seq if i.type == 'STRING'][0]))
-    if content and not any(c in content for c in '\n\r\f') and content.strip(' \t') == content and not any(c in content for c in '\'"()\\ \t') and all(ord(c) >= 0x20 and ord(c) != 0x7f for c in content):
-        cases.append(('url value bare', 'a { x: url(%s) }' % content, lambda d: first_decl(d).uri))
     if content:
-        I = css_ident(content)
+        U = css_url(content, uform)
+        cases.append(('url value bare', 'a { x: url(%s) }' % U, lambda d: first_decl(d).uri))
+        cases.append(('import href url bare', '@import url(%s);' % U, lambda d: _R(d)[0].href))
+    if content:
+        I = css_ident(content, iform)
         if True:
             cases.append(('ident value', 'a { x: %s }' % I, lambda d: first_decl(d).value))
             cases.append(('class name', '.%s { y: z }' % I, lambda d: _R(d)[0].selectorList[0].seq[0].value[1:]))
@@ -866,37 +1036,44 @@ def _content_cases(content, enc=None):
 
 
 def _content_worker(args):
-    maxlen, lo, hi, enc = args
+    maxlen, lo, hi, enc, writers, hex6_maxlen = args
     cssutils = _quiet()
     contents = _contents(maxlen) if enc is None else _enc_contents(enc)
     res = {'n': 0, 'fails': [], 'kinds': set()}
     for content in contents[lo:hi]:
-        for ctxname, src, getter in _content_cases(content, enc):
-            try:
-                dom = cssutils.parseString(src)
-                held = getter(dom)
-            except Exception:
-                continue  # the source did not give the node (C02/C05 territory); this property starts from a DOM
-            finally:
-                cssutils.log.raiseExceptions = True
-            res['n'] += 1
-            res['kinds'].add((ctxname, enc, tuple(sorted(set(content)))))
-            info = {'domain': 'content', 'context': ctxname, 'content': content, 'source': src, 'encoding': enc}
-            fails = roundtrip(dom, configs=('lossless',))
-            if not fails:
+        seen = set()
+        for writer in writers:
+            if writer == 'hex6' and len(content) > hex6_maxlen:
+                continue
+            for ctxname, src, getter in _content_cases(content, enc, writer):
+                if src in seen:
+                    continue   # this writer spells the content like the one before
+                seen.add(src)
                 try:
-                    cssutils.ser.prefs.keepEmptyRules = True
-                    d2 = cssutils.parseString(dom.cssText)
-                    held2 = getter(d2)
-                    if held2 != held:
-                        fails.append((CL_CONTENT, '%s: content %r held as %r, after serialise -> parse %r (text %r)' % (ctxname, content, held, held2, dom.cssText[:200])))
-                except Exception as e:
-                    fails.append((CL_CONTENT, '%s: content %r: after serialise -> parse the node is gone (%s) (text %r)' % (ctxname, content, type(e).__name__, dom.cssText[:200])))
+                    dom = cssutils.parseString(src)
+                    held = getter(dom)
+                except Exception:
+                    continue  # the source did not give the node (C02/C05 territory); this property starts from a DOM
                 finally:
-                    cssutils.ser.prefs.useDefaults()
                     cssutils.log.raiseExceptions = True
-            for cl, detail in fails:
-                res['fails'].append({'clause': cl, 'detail': detail, 'info': info})
+                res['n'] += 1
+                res['kinds'].add((ctxname, enc, writer, tuple(sorted(set(content)))))
+                info = {'domain': 'content', 'context': ctxname, 'content': content, 'source': src, 'encoding': enc, 'writer': writer}
+                again = []
+                fails = roundtrip(dom, configs=('lossless',), reparsed=again)
+                if not fails:
+                    try:
+                        cssutils.ser.prefs.keepEmptyRules = True
+                        held2 = getter(again[0])   # the DOM reparsed from the serialisation under the lossless preferences
+                        if held2 != held:
+                            fails.append((CL_CONTENT, '%s: content %r held as %r, after serialise -> parse %r (text %r)' % (ctxname, content, held, held2, dom.cssText[:200])))
+                    except Exception as e:
+                        fails.append((CL_CONTENT, '%s: content %r: after serialise -> parse the node is gone (%s) (text %r)' % (ctxname, content, type(e).__name__, dom.cssText[:200])))
+                    finally:
+                        cssutils.ser.prefs.useDefaults()
+                        cssutils.log.raiseExceptions = True
+                for cl, detail in fails:
+                    res['fails'].append({'clause': cl, 'detail': detail, 'info': info})
     res['kinds'] = sorted(res['kinds'])
     return res
 
@@ -938,20 +1115,24 @@ def content(ctx):
     contents = _contents(maxlen)
     n = len(contents)
     step = 40 if ctx.tier == 'quick' else 200
-    tasks = [(maxlen, lo, min(n, lo + step), None) for lo in range(0, n, step)]
+    step = step // 2
+    hex6_maxlen = 1 if ctx.tier == 'quick' else maxlen
+    tasks = [(maxlen, lo, min(n, lo + step), None, WRITERS, hex6_maxlen) for lo in range(0, n, step)]
     nenc = 0
     for enc in ENCODINGS:
         m = len(_enc_contents(enc))
         nenc += m
-        tasks += [(maxlen, lo, min(m, lo + 40), enc) for lo in range(0, m, 40)]
+        tasks += [(maxlen, lo, min(m, lo + 40), enc, ('base',), 0) for lo in range(0, m, 40)]
     results = _pool_run(ctx, _content_worker, tasks)
     _report(ctx, results, 'content', 'all strings of length <= %d over the critical alphabet %r (length 2: its first 24, length 3: its first 16 characters) written by independent CSS string / identifier / comment '
             'writers into every context that holds such content (string and url() values, @import href and name, @namespace URI, attribute values, unknown rules; identifier values, class/id/type/'
             'attribute/property/function/pseudo/at-keyword/page/prefix names, units; comments at rule and declaration level, in values, selectors and media lists); the parsed DOM is '
-            'serialised, reparsed, compared (projection, bytes, and the held content itself); the same under @charset ascii / iso-8859-1 / utf-8 for contents made of a '
+            'serialised, reparsed, compared (projection, bytes, and the held content itself); every content is written in each escape form CSS offers for the characters that need one '
+            '(writers %r = (identifier, string, unquoted-url form): hex = \\HH + blank, simple = backslash + the character where the grammar has it - a\\{b, c\\\\d, url(p\\(q) -, hex6 = six digits without '
+            'terminator%s), unquoted url( ) bodies (value and @import) for every content; the same under @charset ascii / iso-8859-1 / utf-8 for contents made of a '
             'character the encoding cannot represent (%r) followed by %r (the serializer must write a hex escape whose terminator survives); '
-            'distinct = (context, encoding, set of characters)' % (maxlen, ALPHABET, ENCODINGS, FOLLOWERS),
-            '%d content strings + %d under a declared @charset' % (n, nenc), [{'content': 'a"\'', 'source': 'a { x: %s }' % gen.css_string('a"\'')}], t0)
+            'distinct = (context, encoding, writer, set of characters)' % (maxlen, ALPHABET, WRITER_FORMS, '; quick tier: hex6 for contents of length <= 1' if ctx.tier == 'quick' else '', ENCODINGS, FOLLOWERS),
+            '%d content strings x <= %d writers + %d under a declared @charset' % (n, len(WRITERS), nenc), [{'content': 'a"\'', 'source': 'a { x: %s }' % gen.css_string('a"\'')}], t0)
 
 
 # ---------------------------------------------------------------------------------------------------- witnesses of the recorded findings
@@ -999,7 +1180,22 @@ def _w_media_ns():
     return gen.project_rule(fresh) != gen.project_rule(r)
 
 
+def _w_mediatype(src, value):
+    def w():
+        cssutils = _quiet()
+        d = cssutils.parseString(src)
+        d.cssRules[0].media[0].mediaType = value
+        return bool(roundtrip(d, configs=('lossless',)))
+    return w
+
+
 WITNESSES = [
+    ('C03-hex-escaped-backslash', lambda: _rt_text('a { x: "\\5c a" }')),
+    ('C03-bare-url-escaped-quote', lambda: _rt_text('a { x: url(\\"a) }')),
+    ('C03-bare-url-trailing-escaped-backslash', lambda: _rt_text('a { x: url(a\\\\) }')),
+    ('C03-ident-trailing-escaped-space', lambda: _rt_text('@page a\\  { margin: 0 }')),
+    ('C03-mediatype-set-duplicate-query', _w_mediatype('@media screen, print { a { left: 0 } }', 'print')),
+    ('C03-mediatype-set-typeless-query', _w_mediatype('@media (min-width: 1px) and (color) { c { top: 0 } }', 'tv')),
     ('C03-ident-not-reescaped', lambda: _rt_text('.\\31 a { color: red }')),
     ('C03-url-control-char-unquoted', lambda: _rt_text('a { x: url("\x7f") }')),
     ('C03-comment-linebreak-reindented', lambda: _rt_text('a { /*\n*/ y: z }')),
